@@ -1,5 +1,24 @@
 """Property -> machinery."""
 PROPS = {
+    "C05": {
+        "x": [],
+        "extra": ["harness.pC05.run"],
+        "engines": ["engine-t"],
+        "engine": "engine-t",
+        "level": "translation_validation",
+        "explanation": "Engine T: for every program of family F5 (all labelled DAGs on <=3/4 macros x every definition "
+                       "order x call orders, same-file and imported layouts written to a scratch directory) the real "
+                       "compiler's output is compared, per routine and for all outcome sequences (Q1/Q2), with the "
+                       "reference semantics of the program in which every call is inlined (parameters substituted, "
+                       "return -> end of the expansion, labels private). A rejected acyclic program violates the "
+                       "totality clause. Expansion/import lemmas over symbolic blueprints are Engine X obligations.",
+        "technique": "z3 BMC trace equivalence between macro-expanded compiler output and the inlined reference "
+                     "semantics, per enumerated macro DAG/order/layout",
+        "level_text": "All DAGs/orders up to the bound are enumerated exhaustively; behaviour per program is "
+                      "solver-decided on all paths.",
+        "level_note": "Trusted: spec/es_sem.py inlining semantics, z3. Imports through symlinks are outside the claim.",
+        "assumptions": ["macro-graph dimension enumerated (exhaustive up to 3/4 macros)"],
+    },
     "C02": {
         "x": [],
         "extra": ["harness.pC02.run"],
